@@ -1377,8 +1377,7 @@ def vocab_tables(cases, rep):
         import transforge.type as T
         c0 = next(c for c in cases if getattr(c, "g", None) is not None)
         L = c0.L
-        t = next(x for x in L.language.canon if isinstance(x, T.TypeOperation) and x.operator.arity == 0
-                 and x.operator not in (T.Top, T.Bottom))
+        t = L.inst((5, []))      # a base type always has a URI
         q = TransformationQuery.from_list(L.language, [t, L.py[L.ops[0]["name"]]])
         text = q.sparql()
         queried = set(re.findall(r"\?workflow\s+:(contains\w*)\s", text))
